@@ -18,6 +18,7 @@ Decided (DESIGN.md section 2, C17) - the structural discipline that makes nonce 
      R4b every CBC explicit-IV slot reserved in a record writer is filled by psGetPrngLocked of the same size.
 Not decided: uniqueness over whole histories (two equal keys, counter wrap after 2^64 records), PRNG quality.
 """
+import re
 from sa.build import AnalysisBroken
 from sa.cg import load_cg
 from sa.ir import load_program, strip, walk, ASSIGN_OPS
@@ -567,6 +568,27 @@ def run(tier):
                                      "current, already used value and the record sequence number restarts at 0 under the same key" % (ln, extra or "none - but not under `%s`" % pname),
                                      file=itb.relfile, line=ln)
                     res.instance("C17.R2", "incrTwoByte:%s load from largestEpoch under exactly `%s`" % (ln, pname), ok2, finding=f2)
+    # ... and the high-water mark is raised on EVERY sending increment that exceeds it: the stores to largestEpoch lie under the
+    # facts `sending`, the increment's own carry test and `new value > largestEpoch` - and under nothing else (a retransmit-only
+    # exception makes the second resend of a flight pick the same epoch again, sequence number restarted, under the same key)
+    nst = 0
+    for b in itb.blocks:
+        for i, ln, x in cu.block_exprs(b):
+            for n in walk(x):
+                if n.get("k") == "bin" and n["op"] == "=" and field_of(n["l"]) == LEPOCH:
+                    nst += 1
+                    facts = set(gfi.get(b["id"], frozenset()))
+                    allowed = lambda t_: t_ == pname or "largestEpoch" in t_ or re.match(r"^\(\(int\)\w+\[\w+\] < 255\)$", t_) or re.match(r"^\(\w+ >= 0\)$", t_)
+                    extra = sorted(t_ for (t_, tr) in facts if not allowed(t_))
+                    ok3 = (pname, True) in facts and not extra
+                    f3 = None
+                    if not ok3:
+                        f3 = Finding(PROP, "C17.R2", "incrTwoByte", "epoch high-water mark raised only under an extra condition",
+                                     "incrTwoByte (line %s) raises ssl->largestEpoch under the additional condition(s) %s: a sending epoch bump "
+                                     "made while that condition fails is not remembered, so the next bump starts from the stale mark and "
+                                     "re-uses an epoch with the record sequence number restarted at 0 - nonce (GCM) / MAC sequence reuse under "
+                                     "the unchanged write key" % (ln, extra or "none - but not under `%s`" % pname), file=itb.relfile, line=ln)
+                    res.instance("C17.R2", "incrTwoByte:%s largestEpoch raised under exactly `%s` and the comparison" % (ln, pname), ok3, finding=f3)
     # (no load at all is the violation reported by the dependency instance above, not a broken analysis)
     # ... and only when sending (the read-side expectedEpoch must not jump)
     # dtlsResendFlight: the rsn restore is on the ChangeCipherSpec-resend path before the re-encode
